@@ -87,9 +87,9 @@ var props = []Prop{
 	{
 		ID: "C07",
 		Harnesses: []H{{Pkg: "ecs", Fn: "HC07_Before"}, {Pkg: "ecs", Fn: "HC07_After"}, {Pkg: "ecs", Fn: "HC07_Unregister", W: 4}, {Pkg: "ecs", Fn: "HDeep", Tier: "thorough"},
-			{Pkg: "ecs", Fn: "HC07_Before", Tags: "tiny", Tier: "thorough"}, {Pkg: "ecs", Fn: "HC07_After", Tags: "tiny", Tier: "thorough"}},
+			{Pkg: "ecs", Fn: "HC07_Before", Tags: "tiny", Tier: "thorough"}, {Pkg: "ecs", Fn: "HC07_After", Tags: "tiny", Tier: "thorough"}, {Pkg: "generic", Fn: "HC18_Builders"}},
 		Conform: stdConform,
-		Bounds:  "filter registered before any table exists (relation targets = handles issued later) or after one of 11 prefixes (incl. retired tables, dead targets, re-issued target ids, self-target, Reset over populated relation tables); 9 filter kinds (All, mask, without, exclusive, relation filters with any issued/zero/future target, and a relation filter whose component filter also matches non-relation tables); then 1 operation out of 10: table creation, relation-table creation, RemoveEntity, Relations.Set, Reset, Reset + re-issue + new child, and Batch.RemoveEntities / Batch.Exchange(Q) / Batch.SetRelation(Q) THROUGH the registered filter; oracle: registered vs original filter on the same world (same entities, same Count), model for batch effects, cache clauses of the structural invariant; Unregister/double register/use after unregister on 3 registrations; 2 configurations (thorough 6)",
+		Bounds:  "filter registered before any table exists (relation targets = handles issued later) or after one of 11 prefixes (incl. retired tables, dead targets, re-issued target ids, self-target, Reset over populated relation tables); 9 filter kinds (All, mask, without, exclusive, relation filters with any issued/zero/future target, and a relation filter whose component filter also matches non-relation tables); then 1 operation out of 10: table creation, relation-table creation, RemoveEntity, Relations.Set, Reset, Reset + re-issue + new child, and Batch.RemoveEntities / Batch.Exchange(Q) / Batch.SetRelation(Q) THROUGH the registered filter; oracle: registered vs original filter on the same world (same entities, same Count), model for batch effects, cache clauses of the structural invariant; Unregister/double register/use after unregister on 3 registrations; 2 configurations (thorough 6); registered generic filters (generic.FilterN.Register / Unregister inside symbolic builder sequences, incl. fixed relation targets) by HC18_Builders, run here too",
 		Outside: "more than one operation after registration beyond the prefixes; logic-combination filters (the cache only calls Matches, decided in C04)",
 	},
 	{
@@ -97,7 +97,7 @@ var props = []Prop{
 		Harnesses: []H{{Pkg: "ecs", Fn: "HC09_Depth", W: 4}, {Pkg: "ecs", Fn: "HC09_Depth", W: 4, Tags: "tiny"}, {Pkg: "ecs", Fn: "HC09_Sweep"}, {Pkg: "ecs", Fn: "HC09_Listener", W: 4},
 			{Pkg: "ecs", Fn: "HC09_Sweep", Tags: "tiny", Tier: "thorough"}, {Pkg: "generic", Fn: "HC09_Generic", W: 4}, {Pkg: "ecs", Fn: "HC09_BitPool", W: 4}, {Pkg: "ecs", Fn: "HC09_BitPool", W: 4, Tags: "tiny"}},
 		Conform: stdConform,
-		Bounds:  "lock-bit pool lemmas from an arbitrary well-formed pool (up to 6 bits handed out, every free-list shape): bits handed out are never held, two open queries never share a bit, release is LIFO; nesting depths 1,2,3,limit-1,limit (256 / 64 in tiny) and limit+1 (must panic), three closing orders (FIFO, LIFO, mixed exhaustion/Close), re-opening 1 / depth / limit queries afterwards; sweep: 34 structural entry points (World, Builder ids/values with and without target, Batch and Relations incl. every Q variant, calls whose filter matches nothing, type registration, LoadEntities, Reset) x 4 lock sources (plain query fresh/advanced, registered filter, batch-result query, nested depth 2 with either closing order) x 5 ways of ending a query (Next exhaustion, Step beyond the end, Close, Close after Count, Close after EntityAt), and inside removal listeners (single and batch removal): refused with exactly the documented message, observables + structural digest unchanged, lock still held, success after release; generic entry points (HC09_Generic): 20 calls of Map1 / Map2 / relation-aware Map2 / Map / Exchange (New, NewWith, NewBatch(Q), Add, Assign, Remove, AddBatch(Q), RemoveBatch(Q), RemoveEntities, SetRelation(Batch), Exchange, ExchangeBatch) refused while a generic query (plain or registered, fresh or advanced) is open and succeeding after release by exhaustion / Close / Count+Close",
+		Bounds:  "lock-bit pool lemmas from an arbitrary well-formed pool (up to 6 bits handed out, every free-list shape): bits handed out are never held, two open queries never share a bit, release is LIFO; nesting depths 1,2,3,limit-1,limit (256 / 64 in tiny) and limit+1 (must panic), three closing orders (FIFO, LIFO, mixed exhaustion/Close), re-opening 1 / depth / limit queries afterwards; sweep: 36 structural entry points (World, Builder ids/values with and without target, Batch and Relations incl. every Q variant, calls whose filter matches nothing, type registration, LoadEntities, Reset) x 4 lock sources (plain query fresh/advanced, registered filter, batch-result query, nested depth 2 with either closing order) x 5 ways of ending a query (Next exhaustion, Step beyond the end, Close, Close after Count, Close after EntityAt), and inside removal listeners (single and batch removal): refused with exactly the documented message, observables + structural digest unchanged, lock still held, success after release; generic entry points (HC09_Generic): 20 calls of Map1 / Map2 / relation-aware Map2 / Map / Exchange (New, NewWith, NewBatch(Q), Add, Assign, Remove, AddBatch(Q), RemoveBatch(Q), RemoveEntities, SetRelation(Batch), Exchange, ExchangeBatch) refused while a generic query (plain or registered, fresh or advanced) is open and succeeding after release by exhaustion / Close / Count+Close",
 		Outside: "entry points reached only through generic arities > 2 (they delegate to the swept ID-based calls); lock sources nested deeper than 2 in the sweep (depth harness covers nesting up to the limit)",
 	},
 	{
